@@ -10,6 +10,7 @@ func init() {
 	zzHarnesses["zzH_C06_eval"] = zzH_C06_eval
 	zzHarnesses["zzH_C06_parse"] = zzH_C06_parse
 	zzHarnesses["zzH_C19"] = zzH_C19
+	zzHarnesses["zzH_C19_spec"] = zzH_C19_spec
 }
 
 var zzC07Alphabet = []string{"", "a", "B", "ab", "aa", "é", "z"}
@@ -316,4 +317,19 @@ func zzUnwrapAcc(r []interface{}) []interface{} {
 		}
 	}
 	return out
+}
+
+// zzH_C19_spec: after any history of Parse calls, a freshly parsed function
+// still behaves as the reference semantics say (catches state that a first
+// call leaves behind for later ones, e.g. caches keyed too coarsely).
+func zzH_C19_spec() {
+	for _, h := range zzSplit(zzParam("history"), '\n') {
+		if h == "" {
+			continue
+		}
+		parts := zzSplit(h, '\t')
+		_, _, ph := zzTryParse(parts[1], zzCfgNamed(parts[0]))
+		zzAssert(ph == nil, "no-panic")
+	}
+	zzH_Eval()
 }
